@@ -340,3 +340,77 @@ func posByteShift(info *types.Info, e ast.Expr) *byteShift {
 	}
 	return &byteShift{base: s2.X, field: s2.Sel.Name, delta: int64(c)}
 }
+
+// e6ForFiles: the position-literal / range-literal / endpoint rules of E6, reported for the
+// constructs in the named files only (the producers of one feature's ranges).
+func e6ForFiles(patterns ...string) func(p *Prog, r *Report) {
+	return func(p *Prog, r *Report) {
+		tmp := newReport(r.Prop)
+		runE6(p, tmp)
+		kept := 0
+		for _, o := range tmp.Obligs {
+			file := o.Pos
+			if i := strings.Index(file, ":"); i > 0 {
+				file = file[:i]
+			}
+			parts := strings.SplitN(o.Key, "|", 3)
+			if len(parts) != 3 {
+				continue
+			}
+			match := false
+			for _, pat := range patterns {
+				if strings.HasPrefix(pat, "fn:") {
+					if strings.Contains(parts[1], pat[3:]) {
+						match = true
+					}
+				} else if strings.Contains(file, pat) {
+					match = true
+				}
+			}
+			if !match {
+				continue
+			}
+			kept++
+			construct := parts[2]
+			if i := strings.LastIndex(construct, "#"); i > 0 && strings.Trim(construct[i+1:], "0123456789") == "" {
+				construct = construct[:i]
+			}
+			r.Add(o.Rule, parts[1], construct, o.Pos, o.Status, o.Detail, o.NonTrivial)
+		}
+		r.Counts["E6.position-constructs-in-feature-files"] = kept
+		r.Clauses = append(r.Clauses, "E6 (feature files "+strings.Join(patterns, ", ")+"): every hcl.Pos literal shifts Column and Byte of one base position by the same constant; no component is assigned alone; a Range literal takes Filename and endpoints from one node")
+	}
+}
+
+// onlyFns runs a rule and keeps the obligations of the functions whose name contains one of
+// the patterns (a property that depends on one part of what a module-wide rule covers).
+func onlyFns(run func(p *Prog, r *Report), countName string, pats ...string) func(p *Prog, r *Report) {
+	return func(p *Prog, r *Report) {
+		tmp := newReport(r.Prop)
+		run(p, tmp)
+		kept := 0
+		for _, o := range tmp.Obligs {
+			parts := strings.SplitN(o.Key, "|", 3)
+			if len(parts) != 3 {
+				continue
+			}
+			match := false
+			for _, pat := range pats {
+				if strings.Contains(parts[1], pat) {
+					match = true
+				}
+			}
+			if !match {
+				continue
+			}
+			kept++
+			construct := parts[2]
+			if i := strings.LastIndex(construct, "#"); i > 0 && strings.Trim(construct[i+1:], "0123456789") == "" {
+				construct = construct[:i]
+			}
+			r.Add(o.Rule, parts[1], construct, o.Pos, o.Status, o.Detail, o.NonTrivial)
+		}
+		r.ExpectMin(countName, kept, 1)
+		r.Clauses = append(r.Clauses, tmp.Clauses...)
+	}
+}
